@@ -536,7 +536,9 @@ def c05j(prog, rep):
         nm = t.split("::")[-1]
         # (taking the token itself with next_token() and going on is what the catch-all does too; a keyword CONSTRUCT is what consumes
         #  further tokens, finishes the line or parses a block)
-        if not t.startswith(P) or nm in ("parse_statement", "next_token") or not (nm in CONSUMERS or nm.startswith("parse_") or nm == "finish_logical_line"):
+        # (since defect #36: also a bare `next_token()` — taking the word in the structure loop keeps it away from parse_statement, which is
+        #  where a label or a case arm `Strict:` is recognised)
+        if not t.startswith(P) or nm in ("parse_statement",) or not (nm in CONSUMERS or nm.startswith("parse_") or nm == "finish_logical_line"):
             continue
         G = {g for g in gbranches if not b.postdominates(c.bb, g)}
 
